@@ -91,7 +91,7 @@ PLANS["C17"] = {
              "select on every 1-bit and 2-bit word, every byte value in every byte position, every 16-bit pattern in each quarter and random words x every legal rank, in a BMI2 build and in a "
              "portable build; distinct = digest of (primitive, argument class or word); non-trivial = word has a set bit / every listed case"),
     "legs": {
-        "quick": [leg("rel", 16), leg("rel-nobmi", 16), leg("dbg", 8, "rw"), leg("dbg-nobmi", 8, "select"), leg("bounds", 8, "select"), leg("miri", 8, "select_miri", budget=3000), leg("miri", 4, "masks", scale=200, budget=3000)],
+        "quick": [leg("rel", 16), leg("rel-nobmi", 16), leg("dbg", 8, "rw"), leg("dbg", 2, "masks"), leg("dbg-nobmi", 2, "masks"), leg("dbg-nobmi", 8, "select"), leg("bounds", 8, "select"), leg("miri", 8, "select_miri", budget=3000), leg("miri", 4, "masks", scale=200, budget=3000)],
         "thorough": [leg("rel", 16), leg("rel-nobmi", 16), leg("dbg", 16), leg("dbg-nobmi", 16), leg("bounds", 16), leg("miri", 16, "select_miri", budget=20000), leg("miri", 8, "masks", scale=100, budget=20000),
                      leg("miri-native", 8, "select_miri", budget=20000)],
     },
@@ -240,7 +240,7 @@ PLANS["C10"] = {
              "(forward-only types: the 5 forward calls); (b) random histories of up to 300 calls incl. len and clone on instances with set bits 0..5 words apart; after every call: returned item and len() vs a "
              "VecDeque model, then the rest is drained and three more calls must return None; distinct = digest of (iterator type, start, call sequence prefix) for random histories, (pattern) for the exhaustive part"),
     "legs": {
-        "quick": [leg("rel", 16, "exh", weight=3), leg("rel", 16, "rand"), leg("dbg", 16, "rand"), leg("rel-nobmi", 8, "rand"), leg("miri-wrap", 8, "exh", of=127, scale=2, budget=4000),
+        "quick": [leg("dbg", 16, "exh", of=48), leg("rel", 16, "exh", weight=3), leg("rel", 16, "rand"), leg("dbg", 16, "rand"), leg("rel-nobmi", 8, "rand"), leg("miri-wrap", 8, "exh", of=127, scale=2, budget=4000),
                    leg("fuzz", 4, "rand", runs=1200)],
         "thorough": [leg("rel", 16, "exh", weight=3), leg("dbg", 16, "exh", scale=1), leg("rel", 16, "rand"), leg("dbg", 16, "rand"), leg("rel-nobmi", 16, "rand"), leg("miri-wrap", 16, "exh", of=127, scale=2, budget=30000),
                       leg("fuzz", 12, "rand", runs=40000), leg("fuzz-dbg", 4, "rand", runs=40000)],
@@ -279,9 +279,9 @@ PLANS["C16"] = {
              "universes up to usize::MAX, start+len near usize::MAX; all observables are compared with a small state machine after EVERY call (unchanged across a refusal, exact after an acceptance), "
              "and the converted vector with the accepted positions; distinct = digest of the call sequence"),
     "legs": {
-        "quick": [leg("rel", 16, weight=3), leg("dbg", 16, "sparse_rand"), leg("dbg", 16, "rl_rand"), leg("dbg", 16, "rl_exh"), leg("miri", 6, "rl_exh", of=4000, budget=2500), leg("miri", 6, "sparse_exh", of=40000, budget=2500),
+        "quick": [leg("dbg", 16, "sparse_exh", of=64), leg("rel", 16, weight=3), leg("dbg", 16, "sparse_rand"), leg("dbg", 16, "rl_rand"), leg("dbg", 16, "rl_exh"), leg("miri", 6, "rl_exh", of=4000, budget=2500), leg("miri", 6, "sparse_exh", of=40000, budget=2500),
                    leg("fuzz", 3, "sparse_rand", runs=3000), leg("fuzz", 3, "rl_rand", runs=1500)],
-        "thorough": [leg("rel", 16, weight=3), leg("dbg", 16, "sparse_rand"), leg("dbg", 16, "rl_rand"), leg("dbg", 16, "rl_exh"), leg("miri", 12, "rl_exh", of=40000, budget=15000), leg("miri", 12, "sparse_exh", of=400000, budget=15000),
+        "thorough": [leg("dbg", 16, "sparse_exh", of=16), leg("rel", 16, weight=3), leg("dbg", 16, "sparse_rand"), leg("dbg", 16, "rl_rand"), leg("dbg", 16, "rl_exh"), leg("miri", 12, "rl_exh", of=40000, budget=15000), leg("miri", 12, "sparse_exh", of=400000, budget=15000),
                       leg("fuzz", 8, "sparse_rand", runs=60000), leg("fuzz", 8, "rl_rand", runs=30000), leg("fuzz-dbg", 4, "sparse_rand", runs=60000), leg("fuzz-dbg", 4, "rl_rand", runs=30000)],
     },
     "require": {"quick": [], "thorough": []},
